@@ -4,7 +4,8 @@
 //!   {np, adds:[{parent, title:[code points], page, zg}], adjust, style}
 //! (parent = 1-based index of an earlier add, 0 = top level; page = page number 1..np, 0 = the
 //! zero page (0,zg)).  `run_case` drives the real API (add_bookmark*, adjust_zero_pages,
-//! build_outline, catalog /Outlines, get_toc, save_to/load_mem in both xref formats) and logs one
+//! build_outline, further allocations (add_object / new_object_id), catalog /Outlines (through
+//! catalog_mut or as a new catalog made with add_object), get_toc, save_to/load_mem in both xref formats) and logs one
 //! record: the forest as lopdf holds it, the produced outline sub-graph projected to
 //! [id, Parent, First, Last, Next, Prev, Title bytes, destination page] and the three get_toc()
 //! results.  `replay` runs the cases TLC generated (MC_Outline), `record` seeded random forests
@@ -23,7 +24,7 @@ const BAD: u32 = 999_999_999;
 /// Document with `np` pages.  `style` (seeded) decides extra objects, the order in which page
 /// objects get their ids (so page number != id order), an intermediate Pages node, and whether the
 /// document is first saved and loaded (a *loaded* base document).  Returns (doc, page ids in page order).
-fn mkdoc(np: usize, style: u64) -> (Document, Vec<u32>) {
+fn mkdoc(np: usize, style: u64) -> Result<(Document, Vec<u32>), String> {
     let mut rng = Rng::new(style);
     let mut doc = Document::with_version("1.5");
     let pages_id = doc.new_object_id();
@@ -63,16 +64,12 @@ fn mkdoc(np: usize, style: u64) -> (Document, Vec<u32>) {
     doc.trailer.set("Root", catalog_id);
     if rng.chance(1, 4) {
         // a loaded base document (max_id comes from the reader)
-        doc.reference_table.cross_reference_type =
-            if rng.chance(1, 2) { XrefType::CrossReferenceTable } else { XrefType::CrossReferenceStream };
-        let mut buf = Vec::new();
-        doc.save_to(&mut buf).expect("save base document");
-        doc = Document::load_mem(&buf).expect("load base document");
+        let fmt = if rng.chance(1, 2) { "table" } else { "stream" };
+        // a failure here is data about lopdf (a plain n-page document must save and load), not a harness failure
+        doc = save_load(&mut doc, fmt).map_err(|e| format!("base-document: {e}"))?;
     }
     let pageids: Vec<u32> = ids.iter().map(|i| i.0).collect();
-    let seen: Vec<u32> = doc.get_pages().values().map(|i| i.0).collect();
-    assert_eq!(seen, pageids, "harness: base document pages");
-    (doc, pageids)
+    Ok((doc, pageids))
 }
 
 fn link(d: &Dictionary, key: &[u8]) -> u32 {
@@ -161,7 +158,11 @@ fn save_load(doc: &mut Document, fmt: &str) -> Result<Document, String> {
 fn run_case(c: &Value) -> Value {
     let np = c["np"].as_u64().unwrap() as usize;
     let style = c["style"].as_u64().unwrap_or(0);
-    let (mut doc, pageids) = mkdoc(np, style);
+    let (mut doc, pageids) = match guarded(|| mkdoc(np, style)) {
+        Ok(Ok(x)) => x,
+        Ok(Err(e)) => return json!({"np": np, "adds": c["adds"], "panic": e}),
+        Err(p) => return json!({"np": np, "adds": c["adds"], "panic": format!("base-document: panic: {p}")}),
+    };
     let adds = c["adds"].as_array().unwrap();
     let fmts: Vec<String> = c["fmts"]
         .as_array()
@@ -170,7 +171,8 @@ fn run_case(c: &Value) -> Value {
     let chain = c["chain"].as_bool().unwrap_or(true);
     let adjust = c["adjust"].as_bool().unwrap_or(true);
     let mut rec = json!({"np": np, "pageids": pageids, "adds": c["adds"], "adjust": adjust, "style": style,
-                         "fmts": fmts, "chain": chain});
+                         "fmts": fmts, "chain": chain, "post": c["post"].as_u64().unwrap_or(0),
+                         "link": c["link"].as_str().unwrap_or("mut")});
     // ---- AddBookmark*
     let mut bids: Vec<u32> = vec![];
     let r = guarded(|| {
@@ -246,16 +248,48 @@ fn run_case(c: &Value) -> Value {
     rec["rootrec"] = rootrec;
     rec["items"] = json!(items);
     rec["others"] = json!(others);
-    // ---- LinkCatalog (as examples/merge.rs and the README do)
+    // ---- allocations after build_outline: `post` calls alternating add_object / new_object_id, then
+    //      LinkCatalog: "mut" = /Outlines set in the existing catalog (as examples/merge.rs and the README
+    //      do), "new" = a new catalog carrying /Outlines is made with add_object and becomes the Root
+    let built = doc.objects.clone();
+    let mut later: Vec<u32> = vec![];
+    for j in 0..c["post"].as_u64().unwrap_or(0) {
+        let id = if j % 2 == 0 { doc.add_object(Object::Integer(j as i64)) } else { doc.new_object_id() };
+        later.push(if id.1 == 0 { id.0 } else { BAD });
+    }
     if let Some(r) = root {
-        match doc.catalog_mut() {
-            Ok(cat) => cat.set("Outlines", Object::Reference(r)),
-            Err(_) => {
-                rec["panic"] = json!("harness: no catalog");
-                return rec;
+        let linked = if c["link"].as_str() == Some("new") {
+            match doc.catalog().map(|d| d.clone()) {
+                Ok(mut cat) => {
+                    cat.set("Outlines", Object::Reference(r));
+                    let id = doc.add_object(cat);
+                    later.push(if id.1 == 0 { id.0 } else { BAD });
+                    doc.trailer.set("Root", Object::Reference(id));
+                    true
+                }
+                Err(_) => false,
             }
+        } else {
+            match doc.catalog_mut() {
+                Ok(cat) => {
+                    cat.set("Outlines", Object::Reference(r));
+                    true
+                }
+                Err(_) => false,
+            }
+        };
+        if !linked {
+            rec["panic"] = json!("base-document: no catalog");
+            return rec;
         }
     }
+    rec["later"] = json!(later);
+    // outline objects that no longer are what build_outline wrote
+    rec["clobbered"] = json!(built
+        .iter()
+        .filter(|(k, v)| !before.contains_key(k) && doc.objects.get(k) != Some(v))
+        .map(|(k, _)| k.0)
+        .collect::<Vec<u32>>());
     // ---- GetToc, then Save;Load;GetToc in both xref formats (second format on the reloaded document
     //      when chain = true, on the original otherwise)
     rec["toc0"] = toc_json(&doc);
@@ -366,7 +400,8 @@ fn random_case(rng: &mut Rng) -> Value {
         .collect();
     let first_table = rng.chance(1, 2);
     json!({"np": np, "adds": adds, "adjust": any_zero || rng.chance(2, 3), "style": rng.next_u64() >> 34,
-           "fmts": if first_table { ["table", "stream"] } else { ["stream", "table"] }, "chain": rng.chance(1, 2)})
+           "fmts": if first_table { ["table", "stream"] } else { ["stream", "table"] }, "chain": rng.chance(1, 2),
+           "post": rng.below(4), "link": if rng.chance(1, 2) { "mut" } else { "new" }})
 }
 
 extern "C" {
@@ -418,7 +453,7 @@ fn main() {
     match args.get(1).map(String::as_str) {
         Some("worker") => worker(),
         Some("replay") => {
-            // cases generated by TLC: {np, adds:[{parent,title,page}], adjust}
+            // cases generated by TLC: {np, adds:[{parent,title,page}], adjust, post, link}
             let mut cases = read_ndjson(&arg(&args, "--in").unwrap());
             for (i, c) in cases.iter_mut().enumerate() {
                 c["case"] = json!(i + 1);
@@ -440,7 +475,8 @@ fn main() {
                 let sib: Vec<u32> = "()) plain ((".chars().map(|c| c as u32).collect();
                 cases.push(json!({"np": 2, "adds": [{"parent": 0, "title": sib, "page": 0, "zg": 0, "fmt": 0},
                     {"parent": 1, "title": t, "page": 2, "zg": 0, "fmt": 0}, {"parent": 0, "title": [0x4E2D, 0x28], "page": 1, "zg": 0, "fmt": 1}],
-                    "adjust": true, "style": rng.next_u64() >> 34, "fmts": ["table", "stream"], "chain": depth % 2 == 0}));
+                    "adjust": true, "style": rng.next_u64() >> 34, "fmts": ["table", "stream"], "chain": depth % 2 == 0,
+                    "post": depth % 3, "link": if depth % 2 == 0 { "new" } else { "mut" }}));
             }
             supervise(&cases, &arg(&args, "--out").unwrap());
         }
